@@ -13,6 +13,17 @@ def H(name, mode, profile="checked", args=(), group=None, timeout=3600, tiers=("
             "group": group or mode, "timeout": timeout, "tiers": tiers, "env": env}
 
 
+def _pm2(name):
+    def f(out, tier, seed):
+        import procmon2  # noqa: PLC0415
+        return getattr(procmon2, name)(out, tier, seed)
+    return f
+
+
+def P(name, fn, tiers=("quick", "thorough")):
+    return {"kind": "py", "name": name, "fn": fn, "tiers": tiers}
+
+
 def run_stages(pid, tier, seed, t0, level, stages, required=(), assumptions=(), exhaustive=None):
     out = Outcome(pid, tier, seed, level)
     out.assumptions = list(assumptions)
@@ -120,6 +131,7 @@ def c06(pid, tier, seed, t0):
         # the optimised build has no overflow checks and no debug assertions: the same hostile
         # text must still yield a position or an error
         H("fen-hostile-opt", "c06", "opt", args=["--hostile-only"], group="c06-opt"),
+        P("fen-binary", _pm2("c06_stage")),
     ]
     return run_stages(pid, tier, seed, t0, "exploration", stages,
                       required=("legal_positions_round_tripped", "canonical_text_with_ep_history",
@@ -218,6 +230,7 @@ def c04(pid, tier, seed, t0):
     stages = [
         H("search-checked", "c04", "checked", group="c04"),
         H("search-opt", "c04", "opt", group="c04-opt"),
+        P("binary-sessions", _pm2("c04_stage")),
     ]
     return run_stages(pid, tier, seed, t0, "exploration", stages, required=SEARCH_FEATURES + ("searches",),
                       assumptions=["termination: every search has a logical bound (depth, time, or a stop request "
@@ -248,7 +261,7 @@ def c09(pid, tier, seed, t0):
 
 
 def c12(pid, tier, seed, t0):
-    stages = [H("determinism-checked", "c12", "checked")]
+    stages = [H("determinism-checked", "c12", "checked"), P("ucinewgame-binary", _pm2("c12_stage"))]
     return run_stages(pid, tier, seed, t0, "exploration", stages,
                       required=("reset_then_compare_with_fresh", "second_run_under_load",
                                 "long_chain_ge_255_generations", "hash_1mb", "hash_64mb"),
@@ -258,16 +271,58 @@ def c12(pid, tier, seed, t0):
 
 def c14(pid, tier, seed, t0):
     stages = [H("limits-checked", "c14", "checked"),
-              H("limits-opt", "c14", "opt", group="c14-opt")]
+              H("limits-opt", "c14", "opt", group="c14-opt"),
+              P("timed-release", _pm2("c14_stage"))]
     return run_stages(pid, tier, seed, t0, "exploration", stages,
-                      required=("grid_tuples", "random_tuples", "remaining_below_200ms",
+                      required=("timed_searches", "timed_searches_at_200ms", "grid_tuples", "random_tuples", "remaining_below_200ms",
                                 "only_one_sides_time_supplied", "moves_to_go_1", "moves_to_go_u32_max",
                                 "overhead_exactly_half", "fixed_movetime_cases"),
                       assumptions=["limits read through hook H2", "bound checked with a tolerance of one f32 ulp of the "
                                    "remaining time + 1 us (the code computes through Duration::mul_f32)"])
 
 
+def c05(pid, tier, seed, t0):
+    import procmon  # noqa: PLC0415
+    stages = [P("uci-histories", procmon.c05_stage)]
+    return run_stages(pid, tier, seed, t0, "exploration", stages,
+                      required=("class_stop_while_searching", "class_stop_after_search_finished_on_its_own",
+                                "class_stop_before_any_go", "class_ucinewgame_after_finished_search",
+                                "class_isready_during_search", "class_go_infinite", "class_go_finite",
+                                "delays_go.after_bestmove", "delays_stop.before_wait", "delays_go.before_lock"),
+                      assumptions=["'eventually' restated as bounded progress: an unanswered command is a violation only "
+                                   "with the /proc deadlock signature (every thread asleep in futex, none in read, CPU "
+                                   "frozen); alive-but-slow is inconclusive",
+                                   "schedules are sampled and forced with H3 delays at preemptible points, not enumerated",
+                                   "depth <= 4 and < 250 searches per process keep other properties' defects from "
+                                   "masquerading as hangs"])
+
+
+def c13(pid, tier, seed, t0):
+    import procmon2  # noqa: PLC0415
+    stages = [P("options", procmon2.c13_stage),
+              # in-process twin: every table size through the API (incl. 0) with inserts, probes and a reset
+              H("tt-sizes-checked", "c19", "checked", args=["--histories", "64", "--max-ops", "400"], group="c13-tt")]
+    return run_stages(pid, tier, seed, t0, "exploration", stages,
+                      required=("option_Hash_values", "option_Threads_values", "option_Move_Overhead_values", "hash_0",
+                                "hash_1024", "values_set_before_first_search", "values_set_between_searches"),
+                      assumptions=["the quantifier is what the binary itself advertises in its 'option' lines",
+                                   "the free-text SyzygyPath option is outside the property"])
+
+
+def c17(pid, tier, seed, t0):
+    import procmon2  # noqa: PLC0415
+    stages = [P("position-command", procmon2.c17_stage)]
+    return run_stages(pid, tier, seed, t0, "exploration", stages,
+                      required=("games_with_castle", "games_with_ep", "games_with_promo_q", "games_with_promo_r",
+                                "games_with_promo_b", "games_with_promo_n", "games_from_fen", "games_from_startpos"),
+                      assumptions=["games and expectations come from refchess; the en-passant field of the FEN dump is "
+                                   "accepted under any single recording convention"])
+
+
 PROPS = {
+    "C13": c13,
+    "C17": c17,
+    "C05": c05,
     "C04": c04,
     "C08": c08,
     "C09": c09,
